@@ -316,8 +316,9 @@ func c03Script(fns [][]*c03Node, filler, deep int) string {
 	}
 	if deep > 0 {
 		// the whole nest runs `deep` frames below the main function (no tail call: every level keeps its frame)
-		// (no parameter, no local: one value-stack slot per level, so that the frames run out before the value stack)
-		fmt.Fprintf(&r.sb, "zn := %d\nzres := undefined\nvar zdeep\nzdeep = func() {\n\tzn--\n\tif zn <= 0 {\n\t\tzres = f0()\n\t\treturn\n\t}\n\tzdeep()\n}\nzdeep()\nreturn zres\n", deep)
+		// (no parameter, no local: one value-stack slot per level, so that the frames run out before the value stack;
+		// a statement after the call, or the VM turns the self-call into a loop and no frame is kept)
+		fmt.Fprintf(&r.sb, "zn := %d\nzres := undefined\nvar zdeep\nzdeep = func() {\n\tzn--\n\tif zn <= 0 {\n\t\tzres = f0()\n\t\treturn\n\t}\n\tzdeep()\n\tzn += 0\n}\nzdeep()\nreturn zres\n", deep)
 		return r.sb.String()
 	}
 	r.sb.WriteString("return f0()\n")
@@ -334,19 +335,25 @@ type c03Compl struct {
 }
 
 type c03Model struct {
-	spec    *sim.WorldSpec
-	hist    []string
-	occ     map[int]int
-	chooseN map[int]int
-	fns     [][]*c03Node
-	steps   int
-	caught  map[int]c03Compl // catch identifier → error it holds
-	depth   map[int]int      // activations per function
+	nest, maxNest int // function activations of the nest alive at once
+	spec          *sim.WorldSpec
+	hist          []string
+	occ           map[int]int
+	chooseN       map[int]int
+	fns           [][]*c03Node
+	steps         int
+	caught        map[int]c03Compl // catch identifier → error it holds
+	depth         map[int]int      // activations per function
 }
 
 // call activates function n (its activation counter first, as the script does).
 func (m *c03Model) call(n int) c03Compl {
 	m.depth[n]++
+	m.nest++
+	if m.nest > m.maxNest {
+		m.maxNest = m.nest
+	}
+	defer func() { m.nest-- }()
 	// catch identifiers are locals of the activation
 	saved := m.caught
 	m.caught = map[int]c03Compl{}
@@ -568,8 +575,9 @@ func c03Run(rc *sim.RunCtx) {
 	}()
 	rc.Steps = steps
 	got := sim.MakeOutcome(ret, rerr, w.Hist)
-	if deep > 0 && strings.Contains(got.Value, "StackOverflow") {
-		// the nest's own calls went past the frame limit: not what the model describes
+	if deep > 0 && (deep+m.maxNest > 1022 || strings.Contains(got.Value, "StackOverflow")) {
+		// the nest's own calls reach the frame limit (the VM can keep 1022 activations below main): a stack overflow
+		// - which the VM lets a catch clause of the calling frame intercept - is not what the model describes
 		rc.Discard = "frame-limit-reached"
 		return
 	}
